@@ -202,8 +202,16 @@ class _Hoist(ast.NodeTransformer):
             return ast.Call(func=ast.Name(id='float', ctx=ast.Load()), args=[ast.Constant(value='inf')], keywords=[])
         return node
 
+    _CONSUMERS = {'max', 'min', 'sum', 'any', 'all', 'sorted', 'set', 'frozenset', 'tuple', 'list', 'dict', 'unique_list', 'Counter'}
+
     def visit_Call(self, node):
         self.generic_visit(node)
+        # f([x for ...])  ->  f((x for ...))  for callables that only iterate their argument once
+        if node.args and isinstance(node.args[0], ast.ListComp) and (
+                (isinstance(node.func, ast.Name) and node.func.id in self._CONSUMERS)
+                or (isinstance(node.func, ast.Attribute) and node.func.attr in ('join', 'extend', 'update'))):
+            lc = node.args[0]
+            node.args[0] = ast.GeneratorExp(elt=lc.elt, generators=lc.generators)
         if isinstance(node.func, ast.Name) and node.func.id == 'map' and len(node.args) == 2 and not node.keywords \
                 and isinstance(node.args[0], (ast.Name, ast.Attribute)):
             v = ast.Name(id='_m', ctx=ast.Load())
